@@ -2129,13 +2129,16 @@ class PartitionwiseSampledRDD(RDD):
         self.seed = seed
 
     def compute(self, split, task_context):
-        random.seed(self.seed + split.index)
+        # generators private to this task: the module-level ones are shared
+        # by all tasks that run concurrently in a thread pool
+        rng = random.Random(self.seed + split.index)
+        numpy_rng = None
         if numpy is not None:
-            numpy.random.seed(self.seed + split.index)
+            numpy_rng = numpy.random.RandomState(self.seed + split.index)
         return (
             x
             for x in self.prev.compute(split, task_context._create_child())
-            for _ in range(self.sampler(x))
+            for _ in range(self.sampler(x, rng, numpy_rng))
         )
 
     def partitions(self):
